@@ -6,6 +6,9 @@ LEVEL = "model_checking"
 SPECDIRS = g.SPECDIRS + ("c13", "c04")
 
 
+CLOSURE_PARTS = ("calls", "exprs", "dims", "conds", "regex", "sources", "cross")
+
+
 def run(ctx):
     ctx.stage_specs(*SPECDIRS)
     ctx.build_driver()
@@ -20,7 +23,7 @@ def run(ctx):
     ctx.assumptions = ["TLC 1.8 + CommunityModules", "recover() observes every panic of the called operation",
                        "operations are run with fixed representative arguments (clock, valuer, two schemas)"]
     parts = []
-    for part in (["calls", "exprs", "dims", "conds", "regex"] + ([] if ctx.quick else ["cross"])):
+    for part in (["calls", "exprs", "dims", "conds", "regex", "sources"] + ([] if ctx.quick else ["cross"])):
         cfg = "Gen_c13_%s.cfg" % part
         open(ctx.path("spec", cfg), "w").write('SPECIFICATION Spec\nCONSTANTS Part = "%s"\nCHECK_DEADLOCK FALSE\n' % part)
         cf = ctx.path("cases_%s.ndjson" % part)
@@ -35,7 +38,8 @@ def run(ctx):
     parts.append(("mutations", cf))
     for name, cf in parts:
         of = ctx.path("obs_%s.ndjson" % name)
-        ctx.drive("c13", cf, of)
+        # the odd-statement parts also run every operation on the result of every statement-producing operation
+        ctx.drive("c13", cf, of, env={"VERIF_C13_CLOSURE": "1"} if name in CLOSURE_PARTS else None)
         ctx.note("%s: %d statements" % (name, ctx.count_lines(of)))
         ctx.judge("Judge_c13", "Judge_c13.cfg", of, label=name, chunk=10000)
         if name == "dims":
